@@ -399,6 +399,18 @@ def run(ctx):
     if si == 0:
         name_probes(ctx)
         size_probes(ctx)
+        # serial freshness over a long construction history (a counter that wraps early shows only here)
+        before = len(_serials)
+        for i in range(70000):
+            m = MSG.SignalMessage('/a', 'M', 'a.b')
+            s_ = m.serial
+            if s_ in _serials or not isinstance(s_, int) or s_ == 0 or s_ >= 2**32:
+                ctx.report('serial-not-fresh', 'serial %r handed out again (or zero / out of range) after %d messages' % (
+                    s_, len(_serials)), {'serial': s_, 'messages_so_far': len(_serials)}, {'kind': 'long-serial'})
+                break
+            _serials.add(s_)
+        ctx.count('evaluations', len(_serials) - before)
+        ctx.count('long_serial_run', len(_serials) - before)
     ctx.require(ctx.ndistinct('field_subsets') >= 32 or sn > 1, 'not every constructor x field subset reached')
     ctx.require(ctx.counters.get('foreign_big', 0) > 100, 'too few big-endian foreign messages')
 
